@@ -19,7 +19,8 @@ func noEffectCallee(name string) bool {
 		"/common/log.", "fmt.", "(*strings.Builder)", "strings.", "strconv.", "errors.New", "/metrics.", "(*github.com/rcrowley/go-metrics",
 		"(github.com/rcrowley/go-metrics", "time.Now", "time.Since", "(time.Time).", "(time.Duration).", "runtime.", "os.Getenv",
 		"encoding/hex.", "/common/hexutil.Encode", "unicode", "math/rand.", "sync/atomic.Load", "(*sync.WaitGroup)", "reflect.TypeOf",
-		"(reflect.Type)", "(*reflect.rtype)", "sort.Search",
+		"(reflect.Type)", "(*reflect.rtype)", "sort.Search", "bytes.Compare", "bytes.Equal", "bytes.HasPrefix", "math.Ceil", "math.Floor",
+		"/common.ToHex", "/common.Bytes2Hex", "/common.FromHex", "/common.BytesToAddress", "/common.BytesToHash", "/common.HexToAddress", "/common.HexToHash",
 	} {
 		if strings.Contains(name, p) {
 			return true
@@ -539,6 +540,12 @@ func isLockOp(name string) string {
 }
 
 func (x *Exec) call(fr *Frame, st *State, in ssa.Instruction, c *ssa.CallCommon, k func(st *State, res Val)) {
+	if fr.con != nil && len(fr.con.AssertAt) > 0 {
+		lbl := x.label(fr.fn, in, "call")
+		for i, a := range fr.con.AssertAt[lbl] {
+			x.specCheck(fr, st, fmt.Sprintf("assert@%s[%d]", lbl, i), "assert", a, nil, in)
+		}
+	}
 	var args []Val
 	for _, a := range c.Args {
 		args = append(args, x.get(st, a))
@@ -668,7 +675,7 @@ func (x *Exec) specialCallee(fr *Frame, st *State, in ssa.Instruction, callee *s
 		}
 	case "bytes.Compare", "bytes.Equal":
 		if len(args) == 2 && args[0].K == KSlice && args[1].K == KSlice {
-			eq := x.bytesEq(st, args[0], args[1])
+			eq := x.contentEq(st, args[0], args[1])
 			if callee.Name() == "Equal" {
 				return boolVal(eq), true
 			}
